@@ -552,6 +552,6 @@ pub fn spec() -> PropSpec {
             "Acknowledgement traffic is ignored here (C17); the run ends when the goal (all media delivered, finished event raised) is reached or both queues are empty",
             "the server strips exactly one trailing '/' from the application name (documented)",
         ],
-        checks: vec![PropCheck::new("interop", |ctx| scenario(ctx.tier == Tier::Thorough), 2_500, 60_000, eval)],
+        checks: vec![PropCheck::new("interop", |ctx| scenario(ctx.tier == Tier::Thorough), 25_000, 600_000, eval)],
     }
 }
